@@ -22,7 +22,7 @@ import numpy as np
 from vf import lops
 from vf.monitors import STATE
 from vf.oracles.algebra import Spec
-from vf.common import Plan, crandn, held, violated, inconclusive, rng_for, nrm, pick
+from vf.common import structured, Plan, crandn, held, violated, inconclusive, rng_for, nrm, pick
 from vf import repo_tests
 
 SPEC = {
@@ -146,8 +146,11 @@ def run_lin(case):
         except Exception:
             pass
     try:
-        x = crandn(rng, ish, cdt)
-        y = crandn(rng, ish, cdt)
+        with structured((sum(case["rs"]) // 3) % 9 if sum(case["rs"]) % 2 else 0) as skind:
+            x = crandn(rng, ish, cdt)
+            y = crandn(rng, ish, cdt)
+        if skind != "gauss":
+            sig += "|" + skind
         if case.get("mag", 1) != 1:
             x, y = x * cdt(case["mag"]), y * cdt(case["mag"])
             sig += "|mag%g" % case["mag"]
